@@ -141,6 +141,11 @@ func (p *Path) callSSA(caller *frame, fn *ssa.Function, args []Value, env []Valu
 	}
 	if fn.Pkg != nil && fn.Pkg != p.eng.Pkg {
 		pp := fn.Pkg.Pkg.Path()
+		if caller != nil {
+			p.callerName = caller.fn.String()
+		} else {
+			p.callerName = ""
+		}
 		if r, ok := p.stubByPackage(pp, fn, args); ok {
 			p.stubs[pp+".*"]++
 			return r
